@@ -273,7 +273,7 @@ func bfsAlphabet(sp *spec) []sym {
 }
 
 func TestExhaustive(t *testing.T) {
-	depth := run.Pick(4, 5)
+	depth := run.Pick(4, 6)
 	capPerLevel := run.Pick(2500, 40000)
 	run.Extra("exhaustive_depth", depth)
 	fixed := true
@@ -304,6 +304,9 @@ func TestExhaustive(t *testing.T) {
 			last := d == depth-1
 			parMap(t, len(jobs), func(t *testing.T, i int, ob *obsBuf) {
 				res[i] = execSeq(t, sp, jobs[i].seq, false, d, !last, ob)
+				if d != 2 {
+					res[i].trace = nil // only level 3 is sampled; do not hold a million traces
+				}
 			})
 			var next [][]sym
 			for i, r := range res {
